@@ -34,11 +34,13 @@ func memoSequential(r *rng, g *storeGen, n int, hist map[string]int) {
 		g.store = inner
 		g.pickUniverse(8+r.intn(12), false)
 		name := "?g"
-		if _, err := memo.NewGraph(ctx, name); err != nil {
+		created, err := memo.NewGraph(ctx, name)
+		if err != nil {
 			continue
 		}
 		plain, _ := inner.Graph(ctx, name)
-		var hs []storage.Graph
+		// the handle NewGraph returned and handles obtained later are handles of one graph
+		hs := []storage.Graph{created}
 		for i := 0; i < 1+r.intn(3); i++ {
 			h, err := memo.Graph(ctx, name)
 			if err != nil {
